@@ -156,11 +156,12 @@ class TrioEventLoop(EventLoop):
                 del self._pending_tasks[i]
                 scope.cancel()  # a second removal finds it cancelled
                 return True
-        if self._nursery is None:
-            # not running: every task of an earlier run() is over, a pending one was removed before
-            return False
 
-        existed = not scope.cancel_called
+        try:
+            existed = not scope.cancel_called
+        except RuntimeError:
+            # outside trio.run(): every task of an earlier run() is over
+            return False
         scope.cancel()
         return existed
 
